@@ -198,7 +198,16 @@ func (s *server) handleLFS(w http.ResponseWriter, r *http.Request) {
 					}{404, "object not found"}
 				}
 			}
-			// upload: no actions = the server already has the object
+			// upload: no actions = the server already has the object; it asks for the ones it has never heard of
+			// (only the "exists nowhere" object of the override cases)
+			if breq.Operation == "upload" {
+				s.mu.Lock()
+				_, have := s.objs[o.Oid]
+				s.mu.Unlock()
+				if !have {
+					ob.Actions = map[string]action{"upload": {Href: fmt.Sprintf("http://%s/%s/%s/store/%s", s.Host, tag, role, o.Oid)}}
+				}
+			}
 			resp.Objects = append(resp.Objects, ob)
 		}
 		w.Header().Set("Content-Type", "application/vnd.git-lfs+json")
@@ -213,6 +222,8 @@ func (s *server) handleLFS(w http.ResponseWriter, r *http.Request) {
 		}
 		w.Header().Set("Content-Type", "application/octet-stream")
 		w.Write(b)
+	case r.Method == "PUT" && strings.HasPrefix(rest, "store/"):
+		w.WriteHeader(200) // recorded above, not stored: the twins must see the same server
 	case r.Method == "POST" && strings.HasSuffix(rest, "locks/verify"):
 		w.Header().Set("Content-Type", "application/vnd.git-lfs+json")
 		w.Write([]byte(`{"ours":[],"theirs":[]}`))
